@@ -82,6 +82,37 @@ pub proof fn lemma_enc_be_inj(s: Seq<u8>)
     }
 }
 
+/// a leading zero octet does not change the value
+pub proof fn lemma_be_nat_prepend_zero(s: Seq<u8>)
+    ensures be_nat(seq![0u8] + s) == be_nat(s)
+    decreases s.len()
+{
+    let z = seq![0u8] + s;
+    if s.len() == 0 {
+        reveal_with_fuel(be_nat, 2);
+        assert(z.drop_last() =~= Seq::<u8>::empty());
+    } else {
+        assert(z.drop_last() =~= seq![0u8] + s.drop_last());
+        assert(z.last() == s.last());
+        lemma_be_nat_prepend_zero(s.drop_last());
+    }
+}
+/// small values have a leading zero octet
+pub proof fn lemma_enc_be_leading_zero(v: nat, n: nat)
+    requires v < pow256(n)
+    ensures enc_be(v, n + 1) == seq![0u8] + enc_be(v, n)
+    decreases n
+{
+    if n == 0 {
+        reveal_with_fuel(enc_be, 2);
+        assert(enc_be(v, 1) =~= seq![0u8] + enc_be(v, 0));
+    } else {
+        assert(v / 256 < pow256((n - 1) as nat)) by(nonlinear_arith) requires v < 256 * pow256((n - 1) as nat);
+        lemma_enc_be_leading_zero(v / 256, (n - 1) as nat);
+        assert(enc_be(v, n + 1) =~= seq![0u8] + enc_be(v, n));
+    }
+}
+
 pub proof fn lemma_pow256_vals()
     ensures pow256(1) == 0x100, pow256(2) == 0x1_0000, pow256(4) == 0x1_0000_0000,
             pow256(3) == 0x100_0000, pow256(6) == 0x1_0000_0000_0000,
@@ -223,6 +254,13 @@ pub trait ExWrite {
             r is Ok ==> (0 <= io_pos(old(self)) <= io_buf(old(self)).len() ==>
                 io_buf(final(self)) == overwrite(io_buf(old(self)), io_pos(old(self)), b@)
                 && io_pos(final(self)) == io_pos(old(self)) + b@.len());
+    /// a single write may be short: only a prefix of `b` is guaranteed to have been accepted
+    fn write(&mut self, b: &[u8]) -> (r: std::result::Result<usize, std::io::Error>)
+        ensures
+            r is Ok ==> r.unwrap() <= b@.len() && io_log(final(self)) == io_log(old(self)) + b@.subrange(0, r.unwrap() as int),
+            r is Ok ==> (0 <= io_pos(old(self)) <= io_buf(old(self)).len() ==>
+                io_buf(final(self)) == overwrite(io_buf(old(self)), io_pos(old(self)), b@.subrange(0, r.unwrap() as int))
+                && io_pos(final(self)) == io_pos(old(self)) + r.unwrap());
     fn flush(&mut self) -> (r: std::result::Result<(), std::io::Error>)
         ensures io_log(final(self)) == io_log(old(self)), io_buf(final(self)) == io_buf(old(self)),
                 io_pos(final(self)) == io_pos(old(self));
